@@ -34,6 +34,16 @@ def _sync(title, oracle, ref):
 
 
 CHECKS.update({
+    "C16": dict(
+        category="translation_validation",
+        technique="differential execution: a seeded determinate pthread program interpreter run natively and redirected by ld --wrap and by LD_PRELOAD (hooked library builds, 1-16 workers, delay profiles, ASan); stdout and exit status compared",
+        text=("Each generated program (spawn trees with attribute objects on painted memory, detach, pthread_exit, self/equal; counters under dynamically and statically initialised mutexes whose first use is raced "
+              "by 2-32 threads; condition-variable bounded buffer; barrier phases with serial count, spin lock, once; 24 keys with destructors) is run natively twice (determinacy check) and through both redirection "
+              "mechanisms; outputs must be identical, a crash/deadlock/hang on the wrapped side is a disagreement. Translation validation is the right level: the property is equality of observable results between two "
+              "implementations of the same API for every program of a class, sampled over generated programs and schedules."),
+        design_ref="DESIGN.md section 5 C16",
+        note=COMMON_NOTE + " The native run of the same program is the reference (trusted: glibc's pthreads).",
+    ),
     "C17": dict(
         category="exploration",
         technique="runtime monitoring: sequential reference model + per-item exactly-once counters + guard bytes / exactly sized heap blocks under ASan for the C helpers; per-task slots and per-index counters vs the sequential loop for mtbb, with a live-thread watchdog for non-terminating recursion",
